@@ -100,11 +100,11 @@ Qed.
 Lemma allclose0_true l : (forall x, In x l -> Qabs x <= atol) -> allclose0 l = true.
 Proof. intros H. apply forallb_forall. intros x Hx. unfold close0. apply Qle_bool_iff. now apply H. Qed.
 
-Theorem reject_zero_shift q isf sh data d :
-  (forall x, In x data -> Qabs x <= atol) -> S_ok q (KArr isf sh data) d = Reject TypeError.
+Theorem reject_zero_shift isf sh data d :
+  (forall x, In x data -> Qabs x <= atol) -> S_ok (KArr isf sh data) d = Reject TypeError.
 Proof. intros H. unfold S_ok. simpl k_data. now rewrite (allclose0_true _ H). Qed.
 
-Theorem reject_zero_shift_int q d : S_ok q (KInt 0) d = Reject TypeError.
+Theorem reject_zero_shift_int d : S_ok (KInt 0) d = Reject TypeError.
 Proof. reflexivity. Qed.
 
 Lemma close0_int z : z <> 0%Z -> close0 (inject_Z z) = false.
@@ -117,89 +117,72 @@ Proof.
   apply (Qlt_not_le _ _ H2). eapply Qle_trans; eauto.
 Qed.
 
-Theorem accept_nonzero_int_shift q z : z <> 0%Z -> S_ok q (KInt z) None = Accept.
+Theorem accept_nonzero_int_shift z : z <> 0%Z -> S_ok (KInt z) None = Accept.
 Proof.
-  intros Hz. unfold S_ok, any_zero_row, row_zero. simpl. rewrite (close0_int z Hz). simpl.
-  destruct (q_zero_row q); reflexivity.
+  intros Hz. unfold S_ok, any_zero_row, row_zero. simpl. rewrite (close0_int z Hz). reflexivity.
 Qed.
 
-(* with the switch off (zero rows refused): a zero row at any position of the batch *)
-Theorem reject_zero_shift_row q k d b :
-  q_zero_row q = false -> (b < List.length (k_data k) / kdim_of k)%nat ->
+(* a zero row (within the allclose tolerance) at any position b of a batch of shifts, any kdim *)
+Theorem reject_zero_shift_row k d b :
+  (b < List.length (k_data k) / kdim_of k)%nat ->
   (forall c, (c < kdim_of k)%nat -> Qabs (nth (b * kdim_of k + c) (k_data k) 0) <= atol) ->
-  S_ok q k d = Reject TypeError.
+  S_ok k d = Reject TypeError.
 Proof.
-  intros Hq Hb Hrow. unfold S_ok. destruct (allclose0 (k_data k)); [reflexivity|]. simpl.
-  rewrite Hq. simpl.
+  intros Hb Hrow. unfold S_ok. destruct (allclose0 (k_data k)); [reflexivity|]. cbn [guard andv].
   assert (any_zero_row k = true) as ->; [|reflexivity].
   unfold any_zero_row. apply existsb_exists. exists b. split; [apply in_seq; lia|].
   unfold row_zero. apply forallb_forall. intros c Hc. apply in_seq in Hc.
   unfold close0. apply Qle_bool_iff. apply Hrow. lia.
 Qed.
 
-(* the code that exists accepts it *)
-Theorem zero_shift_row_refuted q :
-  q_zero_row q = true ->
-  exists k, any_zero_row k = true /\ S_ok q k None = Accept.
+Lemma kdim_bad isf sh data : (4 < lastd (atleast_2d sh))%nat -> kdim_ok (KArr isf sh data) = false.
+Proof. intros H. unfold kdim_ok, kdim_of. apply andb_false_iff. right. apply Nat.leb_gt. exact H. Qed.
+
+Theorem reject_too_many_components isf sh data d :
+  (4 < lastd (atleast_2d sh))%nat -> exists e, S_ok (KArr isf sh data) d = Reject e.
 Proof.
-  intros Hq. exists (KArr false [2; 1]%nat [1; 0]). split; [reflexivity|].
-  unfold S_ok. rewrite Hq. reflexivity.
+  intros H. unfold S_ok. rewrite (kdim_bad isf sh data H).
+  destruct (allclose0 _); [eexists; reflexivity|].
+  destruct (any_zero_row _); eexists; reflexivity.
 Qed.
 
-Theorem reject_too_many_components q isf sh data d :
-  (4 < lastd (atleast_2d sh))%nat -> exists e, S_ok q (KArr isf sh data) d = Reject e.
+Theorem reject_too_many_components_class isf sh data d :
+  (4 < lastd (atleast_2d sh))%nat -> allclose0 data = false -> any_zero_row (KArr isf sh data) = false ->
+  S_ok (KArr isf sh data) d = Reject ValueError.
 Proof.
-  intros H. unfold S_ok.
-  destruct (allclose0 _); [eexists; reflexivity|]. simpl.
-  destruct (negb (q_zero_row q) && any_zero_row _); [eexists; reflexivity|]. simpl.
-  assert (kdim_ok (KArr isf sh data) = false) as ->.
-  { unfold kdim_ok, kdim_of. apply andb_false_iff. right. apply Nat.leb_gt. exact H. }
-  eexists; reflexivity.
-Qed.
-
-Theorem reject_too_many_components_class q isf sh data d :
-  (4 < lastd (atleast_2d sh))%nat -> allclose0 data = false -> q_zero_row q = true ->
-  S_ok q (KArr isf sh data) d = Reject ValueError.
-Proof.
-  intros H Hz Hq. unfold S_ok. simpl k_data. rewrite Hz, Hq. simpl.
-  assert (kdim_ok (KArr isf sh data) = false) as ->; [|reflexivity].
-  unfold kdim_ok, kdim_of. apply andb_false_iff. right. apply Nat.leb_gt. exact H.
+  intros H Hz Hr. unfold S_ok. rewrite (kdim_bad isf sh data H), Hr. cbn [k_data]. rewrite Hz. reflexivity.
 Qed.
 
 Theorem accept_four_components isf sh data :
   lastd (atleast_2d sh) = 4%nat -> kdim_ok (KArr isf sh data) = true.
 Proof. intros H. unfold kdim_ok, kdim_of. rewrite H. reflexivity. Qed.
 
-Theorem reject_negative_tau_G q c tsh pre x post gsh g d :
-  x < 0 -> G_ok q c tsh (pre ++ x :: post) gsh g d = Reject ValueError.
+Theorem reject_negative_tau_G c tsh pre x post gsh g d :
+  x < 0 -> G_ok c tsh (pre ++ x :: post) gsh g d = Reject ValueError.
 Proof. intros H. unfold G_ok. now rewrite any_neg_mid. Qed.
 
-Theorem reject_negative_tau_C q islist tsh pre x post d :
-  x < 0 -> exists e, C_ok q islist tsh (pre ++ x :: post) d = Reject e.
-Proof.
-  intros H. unfold C_ok. destruct (q_C_list_tau q && islist); [eexists; reflexivity|].
-  simpl. rewrite any_neg_mid by exact H. eexists; reflexivity.
-Qed.
+Theorem reject_negative_tau_C tsh pre x post d :
+  x < 0 -> C_ok tsh (pre ++ x :: post) d = Reject ValueError.
+Proof. intros H. unfold C_ok. now rewrite any_neg_mid. Qed.
 
-Theorem reject_gradient_components q c tsh tau a gsh g d :
-  (3 < lastd (a :: gsh))%nat -> G_ok q c tsh tau (a :: gsh) g d = Reject ValueError.
+Theorem reject_gradient_components c tsh tau a gsh g d :
+  (3 < lastd (a :: gsh))%nat -> G_ok c tsh tau (a :: gsh) g d = Reject ValueError.
 Proof.
   intros H. unfold G_ok. destruct (any_neg tau); [reflexivity|]. simpl andv.
   apply Nat.ltb_lt in H. rewrite H. reflexivity.
 Qed.
 
 (* the two clauses of the property meet: tau = 0 passes the time guard and is a zero shift *)
-Theorem G_tau_zero_is_zero_shift q c g d :
-  G_ok q c [] [0] [] g d = Reject TypeError.
+Theorem G_tau_zero_is_zero_shift c g d :
+  G_ok c [] [0] [] g d = Reject TypeError.
 Proof.
-  unfold G_ok. simpl andv. unfold S_ok. simpl k_data.
-  assert (allclose0 (outer c [0] g) = true) as ->; [|reflexivity].
+  assert (Hz : allclose0 (outer c [0] g) = true); [|unfold G_ok, S_ok; cbn [k_data]; rewrite Hz; reflexivity].
   apply allclose0_true. intros x Hx. unfold outer in Hx. simpl in Hx. rewrite app_nil_r in Hx.
   apply in_map_iff in Hx. destruct Hx as [y [<- _]].
   assert (E : c * y * 0 == 0) by ring. rewrite E. discriminate.
 Qed.
-Theorem C_tau_zero_is_zero_shift q d : C_ok q false [] [0] d = Reject TypeError.
-Proof. unfold C_ok. rewrite andb_false_r. reflexivity. Qed.
+Theorem C_tau_zero_is_zero_shift d : C_ok [] [0] d = Reject TypeError.
+Proof. reflexivity. Qed.
 
 (* ------------------------------------------------------------------ 5. float shift without a grid *)
 Theorem reject_float_shift_without_grid sh data c :
@@ -216,3 +199,458 @@ Proof.
 Qed.
 Theorem accept_int_shift_without_grid z c : c <> CFloat -> S_apply_ok (KInt z) c None None = Accept.
 Proof. destruct c; [reflexivity|reflexivity|congruence]. Qed.
+
+(* ------------------------------------------------------------------ 6. state matrices *)
+Lemma states_ok_nd (s : list nat) n c data :
+  states_ok (s ++ [n; c]) data =
+  guard (negb (c =? 3)%nat) ValueError >> guard (Nat.even n) ValueError >> sym_ok data (prodn s) n.
+Proof.
+  assert (E : states_ok (s ++ [n; c]) data =
+              guard (negb (lastd (s ++ [n; c]) =? 3)%nat) ValueError >>
+              guard (Nat.even (lastd (butlast (s ++ [n; c])))) ValueError >>
+              sym_ok data (prodn (butlast (butlast (s ++ [n; c])))) (lastd (butlast (s ++ [n; c])))).
+  { destruct s as [|a [|b s]]; reflexivity. }
+  rewrite E, lastd_app2, butlast_app2, lastd_app, butlast_app. reflexivity.
+Qed.
+
+Theorem reject_states_zero_dim data : states_ok [] data = Reject IndexError.
+Proof. reflexivity. Qed.
+Theorem reject_states_vector m data : m <> 3%nat -> states_ok [m] data = Reject ValueError.
+Proof. intros H. unfold states_ok. apply Nat.eqb_neq in H. rewrite H. reflexivity. Qed.
+Theorem reject_states_columns s n c data : c <> 3%nat -> states_ok (s ++ [n; c]) data = Reject ValueError.
+Proof. intros H. rewrite states_ok_nd. apply Nat.eqb_neq in H. rewrite H. reflexivity. Qed.
+Theorem reject_states_even s n c data : Nat.even n = true -> states_ok (s ++ [n; c]) data = Reject ValueError.
+Proof. intros H. rewrite states_ok_nd, H. destruct (c =? 3)%nat; reflexivity. Qed.
+
+(* a broken F+/F- or Z symmetry in any batch entry b and any state i *)
+Theorem reject_states_asym_F s n data b i :
+  (b < prodn s)%nat -> (i < n)%nat -> fsym_at data n b i = false ->
+  exists e, states_ok (s ++ [n; 3%nat]) data = Reject e.
+Proof.
+  intros Hb Hi H. rewrite states_ok_nd. cbn [Nat.eqb negb guard andv].
+  destruct (Nat.even n); [eexists; reflexivity|]. cbn [guard andv].
+  unfold sym_ok. rewrite (all2d_false _ _ _ b i Hb Hi H). eexists; reflexivity.
+Qed.
+Theorem reject_states_asym_Z s n data b i :
+  (b < prodn s)%nat -> (i < n)%nat -> zsym_at data n b i = false ->
+  exists e, states_ok (s ++ [n; 3%nat]) data = Reject e.
+Proof.
+  intros Hb Hi H. rewrite states_ok_nd. cbn [Nat.eqb negb guard andv].
+  destruct (Nat.even n); [eexists; reflexivity|]. cbn [guard andv].
+  unfold sym_ok. rewrite (all2d_false _ _ (zsym_at data n) b i Hb Hi H).
+  destruct (all2d _ _ (fsym_at data n)); eexists; reflexivity.
+Qed.
+Theorem accept_states s n data :
+  Nat.even n = false ->
+  (forall b i, (b < prodn s)%nat -> (i < n)%nat -> fsym_at data n b i = true /\ zsym_at data n b i = true) ->
+  states_ok (s ++ [n; 3%nat]) data = Accept.
+Proof.
+  intros He H. rewrite states_ok_nd, He. cbn [Nat.eqb negb guard andv]. unfold sym_ok.
+  rewrite !all2d_true; [reflexivity| |]; intros b i Hb Hi; apply (H b i Hb Hi).
+Qed.
+
+(* ------------------------------------------------------------------ 7./8. operator coefficients *)
+Theorem reject_scalar_coef_columns s c data a0 :
+  c <> 3%nat -> scalar_coef_ok (s ++ [c], data) a0 = Reject ValueError.
+Proof.
+  intros H. unfold scalar_coef_ok, scalar_format_ok. cbn [fst snd].
+  assert (E : forall sh, lastd (match sh ++ [c] with [m] => [1%nat; m] | _ => sh ++ [c] end) = c).
+  { intros sh. destruct sh as [|x [|y sh]]; try reflexivity; apply (lastd_app (x :: y :: sh)). }
+  rewrite E. apply Nat.eqb_neq in H. rewrite H, orb_true_r. reflexivity.
+Qed.
+Theorem reject_scalar_coef_zero_dim data a0 : scalar_coef_ok ([], data) a0 = Reject ValueError.
+Proof. reflexivity. Qed.
+Theorem reject_scalar_coef_asym x (s : list nat) data a0 b c :
+  (b < prodn (x :: s))%nat -> (c < 3)%nat -> ssym_at data b c = false ->
+  scalar_coef_ok (x :: s ++ [3%nat], data) a0 = Reject ValueError.
+Proof.
+  intros Hb Hc H. unfold scalar_coef_ok, scalar_format_ok. cbn [fst snd].
+  assert (E : match x :: s ++ [3%nat] with [m] => [1%nat; m] | _ => x :: s ++ [3%nat] end = (x :: s) ++ [3%nat]).
+  { destruct s; reflexivity. }
+  rewrite E, lastd_app, butlast_app.
+  assert (L : (List.length ((x :: s) ++ [3%nat]) <? 2)%nat = false).
+  { apply Nat.ltb_ge. rewrite app_length. simpl. lia. }
+  rewrite L. cbn [Nat.eqb negb orb guard andv].
+  rewrite (all2d_false _ _ _ b c Hb Hc H). reflexivity.
+Qed.
+Theorem reject_matrix_coef_shape (s : list nat) a b data a0 :
+  (a <> 3%nat \/ b <> 3%nat) -> matrix_coef_ok (s ++ [a; b], data) a0 = Reject ValueError.
+Proof.
+  intros H. unfold matrix_coef_ok, matrix_format_ok. cbn [fst snd].
+  set (sh := match s ++ [a; b] with [x; y] => [1%nat; x; y] | _ => s ++ [a; b] end).
+  assert (E : lastd sh = b /\ lastd (butlast sh) = a).
+  { subst sh. destruct s as [|x s]; [split; reflexivity|].
+    assert (E0 : match (x :: s) ++ [a; b] with [x0; y] => [1%nat; x0; y] | _ => (x :: s) ++ [a; b] end = (x :: s) ++ [a; b]).
+    { destruct s as [|y [|z s]]; reflexivity. }
+    rewrite E0, lastd_app2, butlast_app2, lastd_app. split; reflexivity. }
+  destruct E as [-> ->].
+  assert (G : negb (b =? 3)%nat || negb (a =? 3)%nat = true).
+  { destruct H as [H|H]; apply Nat.eqb_neq in H; rewrite H; [apply orb_true_r | reflexivity]. }
+  destruct (List.length sh <? 3)%nat; [reflexivity|]. cbn [orb]. rewrite G. reflexivity.
+Qed.
+Theorem reject_matrix_coef_asym (s : list nat) data a0 b ij :
+  (b < prodn s)%nat -> (ij < 9)%nat -> msym_at data b ij = false -> s <> [] ->
+  matrix_coef_ok (s ++ [3; 3]%nat, data) a0 = Reject ValueError.
+Proof.
+  intros Hb Hc H Hs. unfold matrix_coef_ok, matrix_format_ok. cbn [fst snd].
+  assert (E : match s ++ [3; 3]%nat with [x; y] => [1%nat; x; y] | _ => s ++ [3; 3]%nat end = s ++ [3; 3]%nat).
+  { destruct s as [|x [|y [|z s]]]; try reflexivity. congruence. }
+  rewrite E, lastd_app2, !butlast_app2, lastd_app, butlast_app.
+  assert (L : (List.length (s ++ [3; 3]%nat) <? 3)%nat = false).
+  { apply Nat.ltb_ge. rewrite app_length. destruct s; [congruence|]. simpl. lia. }
+  rewrite L. cbn [Nat.eqb negb orb guard andv].
+  rewrite (all2d_false _ _ _ b ij Hb Hc H). reflexivity.
+Qed.
+
+(* ------------------------------------------------------------------ 9. operator / state shapes *)
+Theorem reject_not_a_statematrix s1 s2 : prepare_ok false s1 s2 = Reject TypeError.
+Proof. reflexivity. Qed.
+
+Theorem reject_nonbroadcastable s1 s2 i :
+  let n := Nat.max (List.length s1) (List.length s2) in
+  (i < n)%nat -> dims_compat (dim_app n s1 i) (dim_app n s2 i) = false ->
+  prepare_ok true s1 s2 = Reject ValueError.
+Proof.
+  intros n Hi H. unfold prepare_ok, broadcastable_app. cbn [negb guard andv]. fold n.
+  rewrite (forallb_false _ _ i); [reflexivity| apply in_seq; lia | exact H].
+Qed.
+
+Lemma dim_app_last (s : list nat) a n : dim_app n (s ++ [a]) (List.length s) = a.
+Proof. unfold dim_app, pad_app. rewrite <- app_assoc. apply nth_middle. Qed.
+
+(* a mismatch on the trailing axis, whatever precedes it *)
+Theorem reject_trailing_axis_mismatch (s : list nat) a b :
+  a <> 1%nat -> b <> 1%nat -> a <> b -> prepare_ok true (s ++ [a]) (s ++ [b]) = Reject ValueError.
+Proof.
+  intros Ha Hb Hab. apply (reject_nonbroadcastable _ _ (List.length s)).
+  - rewrite !app_length. simpl. lia.
+  - rewrite !dim_app_last. unfold dims_compat.
+    apply Nat.eqb_neq in Ha, Hb, Hab. rewrite Ha, Hb, Hab. reflexivity.
+Qed.
+
+Lemma dims_compat_refl a : dims_compat a a = true.
+Proof. unfold dims_compat. rewrite Nat.eqb_refl. apply orb_true_r. Qed.
+Theorem accept_same_shape s : prepare_ok true s s = Accept.
+Proof.
+  unfold prepare_ok, broadcastable_app. cbn [negb guard andv].
+  assert (forallb (fun i => dims_compat (dim_app (Nat.max (List.length s) (List.length s)) s i)
+            (dim_app (Nat.max (List.length s) (List.length s)) s i)) (seq 0 (Nat.max (List.length s) (List.length s))) = true) as ->; [|reflexivity].
+  apply forallb_forall. intros i _. apply dims_compat_refl.
+Qed.
+
+(* a non-operator item at any position of a MultiOperator *)
+Theorem reject_multi_non_operator items : forall cur,
+  In None items -> exists e, multi_ok cur items = Reject e.
+Proof.
+  induction items as [|x t IH]; intros cur Hin; [destruct Hin|].
+  destruct x as [s|]; [|eexists; reflexivity].
+  destruct Hin as [Hx|Hin]; [discriminate|]. simpl.
+  destruct (bshapes_ok [cur; s]); [apply IH; exact Hin | eexists; reflexivity].
+Qed.
+
+(* ------------------------------------------------------------------ 10. kinetic matrices *)
+Theorem reject_negative_rate q : q < 0 -> khi_ok (KhiScalar q) = Reject ValueError.
+Proof. intros H. unfold khi_ok, guard. now rewrite Qltb_true. Qed.
+Theorem accept_zero_rate : khi_ok (KhiScalar 0) = Accept.
+Proof. reflexivity. Qed.
+Theorem reject_khi_vector n data : khi_ok (KhiArr [n] data) = Reject ValueError.
+Proof. reflexivity. Qed.
+
+Lemma khi_ok_nd (s : list nat) r n data :
+  khi_ok (KhiArr (s ++ [r; n]) data) =
+  guard (negb (r =? n)%nat) ValueError >>
+  guard (negb (forallb (fun j => forallb (fun b => close0 (colsum data n b j)) (seq 0 (prodn s))) (seq 0 n))) ValueError.
+Proof.
+  unfold khi_ok. rewrite lastd_app2, !butlast_app2, lastd_app, butlast_app.
+  assert (L : (List.length (s ++ [r; n]) <? 2)%nat = false).
+  { apply Nat.ltb_ge. rewrite app_length. simpl. lia. }
+  rewrite L. reflexivity.
+Qed.
+
+Theorem reject_khi_not_square s r n data : r <> n -> khi_ok (KhiArr (s ++ [r; n]) data) = Reject ValueError.
+Proof. intros H. rewrite khi_ok_nd. apply Nat.eqb_neq in H. rewrite H. reflexivity. Qed.
+
+(* a column that does not sum to zero, in any batch entry *)
+Theorem reject_khi_column_sum s n data b j :
+  (b < prodn s)%nat -> (j < n)%nat -> close0 (colsum data n b j) = false ->
+  khi_ok (KhiArr (s ++ [n; n]) data) = Reject ValueError.
+Proof.
+  intros Hb Hj H. rewrite khi_ok_nd, Nat.eqb_refl. cbn [negb guard andv].
+  rewrite (forallb_false _ _ j); [reflexivity| apply in_seq; lia |].
+  apply (forallb_false _ _ b); [apply in_seq; lia | exact H].
+Qed.
+
+(* tau = 0 is accepted for every valid kinetic matrix, un-batched or batched *)
+Theorem accept_tau_zero khi d :
+  khi_ok khi = Accept -> (d = DNone \/ d = DTrue) -> X_ok 0 khi d = Accept.
+Proof. intros H Hd. unfold X_ok. rewrite H. destruct Hd as [-> | ->]; reflexivity. Qed.
+Theorem accept_tau_zero_batched (s : list nat) n data d :
+  khi_ok (KhiArr (s ++ [n; n]) data) = Accept -> (d = DNone \/ d = DTrue) ->
+  X_ok 0 (KhiArr (s ++ [n; n]) data) d = Accept.
+Proof. apply accept_tau_zero. Qed.
+
+Lemma prepare_same n : prepare_ok true [n] [n] = Accept.
+Proof. apply accept_same_shape. Qed.
+(* the equilibrium is not conserved: some row of khi . density is not zero *)
+Theorem reject_not_conserving n data dens i :
+  List.length dens = n -> (i < n)%nat -> close0 (rowdot data n dens i) = false ->
+  X_apply_ok n data dens = Reject RuntimeError.
+Proof.
+  intros Hl Hi H. unfold X_apply_ok. rewrite Hl, prepare_same. cbn [andv].
+  rewrite (forallb_false _ _ i); [reflexivity | apply in_seq; lia | exact H].
+Qed.
+Theorem accept_conserving n data dens :
+  List.length dens = n -> (forall i, (i < n)%nat -> close0 (rowdot data n dens i) = true) ->
+  X_apply_ok n data dens = Accept.
+Proof.
+  intros Hl H. unfold X_apply_ok. rewrite Hl, prepare_same. cbn [andv].
+  assert (forallb (fun i => close0 (rowdot data n dens i)) (seq 0 n) = true) as ->; [|reflexivity].
+  apply forallb_forall. intros i Hi. apply in_seq in Hi. apply H. lia.
+Qed.
+
+(* ------------------------------------------------------------------ 11. diffusion *)
+Theorem reject_D_vector t n k : D_shape_ok t [n] k = Reject ValueError.
+Proof. reflexivity. Qed.
+Theorem reject_D_not_square t (s : list nat) a b k : a <> b -> D_shape_ok t (s ++ [a; b]) k = Reject ValueError.
+Proof.
+  intros H. unfold D_shape_ok.
+  assert (L : (List.length (s ++ [a; b]) =? 1)%nat = false).
+  { apply Nat.eqb_neq. rewrite app_length. simpl. lia. }
+  rewrite L. cbn [guard andv].
+  assert (last2_differ (s ++ [a; b]) = true) as ->; [|reflexivity].
+  unfold last2_differ. change (s ++ [a; b]) with (s ++ [a] ++ [b]). rewrite !rev_app_distr. simpl.
+  apply negb_true_iff. apply Nat.eqb_neq. congruence.
+Qed.
+Theorem reject_D_k_mismatch t m j :
+  m <> j -> D_shape_ok t [m; m] (Some [j]) = Reject ValueError.
+Proof.
+  intros H. unfold D_shape_ok, last2_differ. cbn [rev app lastd last].
+  rewrite Nat.eqb_refl. apply Nat.eqb_neq in H. rewrite H. reflexivity.
+Qed.
+
+(* every mismatching dimension, of the tensor and of the shift argument *)
+Theorem reject_D_apply_dims m kk kd :
+  m <> kd -> D_apply_ok (Some m) kk kd = Reject ValueError.
+Proof. intros H. unfold D_apply_ok, differs. apply Nat.eqb_neq in H. rewrite H. reflexivity. Qed.
+Theorem reject_D_apply_k_dims m j kd :
+  j <> kd -> D_apply_ok m (Some j) kd = Reject ValueError.
+Proof.
+  intros H. unfold D_apply_ok. assert (differs (Some j) kd = true) as ->.
+  { unfold differs. apply Nat.eqb_neq in H. now rewrite H. }
+  destruct (differs m kd); reflexivity.
+Qed.
+Theorem accept_D_apply_matching kd :
+  D_apply_ok (Some kd) (Some kd) kd = Accept /\ D_apply_ok (Some kd) None kd = Accept /\
+  D_apply_ok None (Some kd) kd = Accept /\ D_apply_ok None None kd = Accept.
+Proof. unfold D_apply_ok, differs. rewrite Nat.eqb_refl. repeat split; reflexivity. Qed.
+Theorem D_apply_accept_iff m kk kd :
+  D_apply_ok m kk kd = Accept <-> (forall j, m = Some j -> j = kd) /\ (forall j, kk = Some j -> j = kd).
+Proof.
+  unfold D_apply_ok, differs. split.
+  - intros H. split; intros j ->; destruct (Nat.eqb_spec j kd); auto; try discriminate.
+    destruct m as [i|]; [destruct (i =? kd)%nat|]; discriminate.
+  - intros [H1 H2]. destruct m as [i|]; [rewrite (H1 i eq_refl), Nat.eqb_refl|];
+      (destruct kk as [j|]; [rewrite (H2 j eq_refl), Nat.eqb_refl|]); reflexivity.
+Qed.
+
+(* ------------------------------------------------------------------ 12. differentiation arguments *)
+Lemma smem_In s l : In s l -> smem s l = true.
+Proof. intros H. apply existsb_exists. exists s. split; [exact H | apply String.eqb_refl]. Qed.
+
+Lemma unknown_in_norm (l : list (string * list string)) params pre v ps post x :
+  l = pre ++ (v, ps) :: post -> In x ps -> smem x params = false ->
+  existsb (fun vc => existsb (fun p => negb (smem p params)) (snd vc)) l = true.
+Proof.
+  intros -> Hin Hx. apply existsb_mid. simpl. apply existsb_exists. exists x. split; [exact Hin|]. now rewrite Hx.
+Qed.
+
+(* an unknown parameter name at any position of order1=[...] *)
+Theorem reject_unknown_parameter_list q params params2 pre x post a2 :
+  smem x params = false ->
+  parse_partials_ok q params params2 (O1List (pre ++ x :: post)) a2 = Reject ValueError.
+Proof.
+  intros Hx. unfold parse_partials_ok.
+  assert (F : o1_falsy (O1List (pre ++ x :: post)) = false) by (destruct pre; reflexivity).
+  rewrite F. unfold norm_o1. rewrite F.
+  rewrite (unknown_in_norm _ params (map (fun p => (p, [p])) pre) x [x] (map (fun p => (p, [p])) post) x);
+    [reflexivity | | left; reflexivity | exact Hx].
+  rewrite map_app. reflexivity.
+Qed.
+Theorem reject_unknown_parameter_str q params params2 x a2 :
+  smem x params = false -> parse_partials_ok q params params2 (O1Str x) a2 = Reject ValueError.
+Proof.
+  intros Hx. unfold parse_partials_ok. cbn [o1_falsy norm_o1 existsb snd]. rewrite Hx. reflexivity.
+Qed.
+(* an alias {variable: unknown parameter} at any position *)
+Theorem reject_unknown_parameter_alias q params params2 pre v x post a2 :
+  smem x params = false ->
+  parse_partials_ok q params params2 (O1Alias (pre ++ (v, x) :: post)) a2 = Reject ValueError.
+Proof.
+  intros Hx. unfold parse_partials_ok.
+  assert (F : o1_falsy (O1Alias (pre ++ (v, x) :: post)) = false) by (destruct pre; reflexivity).
+  rewrite F. unfold norm_o1. rewrite F.
+  rewrite (unknown_in_norm _ params (map (fun vp => (fst vp, [snd vp])) pre) v [x]
+             (map (fun vp => (fst vp, [snd vp])) post) x);
+    [reflexivity | | left; reflexivity | exact Hx].
+  rewrite map_app. reflexivity.
+Qed.
+(* coefficient form {variable: {parameter: c}}: unknown parameter in any variable's map *)
+Theorem reject_unknown_parameter_coef q params params2 pre v ps post x a2 :
+  In x ps -> smem x params = false ->
+  parse_partials_ok q params params2 (O1Coef (pre ++ (v, ps) :: post)) a2 = Reject ValueError.
+Proof.
+  intros Hin Hx. unfold parse_partials_ok.
+  assert (F : o1_falsy (O1Coef (pre ++ (v, ps) :: post)) = false) by (destruct pre; reflexivity).
+  rewrite F. unfold norm_o1. rewrite F.
+  rewrite (unknown_in_norm _ params pre v ps post x); [reflexivity | reflexivity | exact Hin | exact Hx].
+Qed.
+
+Lemma known_params_ok params :
+  existsb (fun vc : string * list string => existsb (fun p => negb (smem p params)) (snd vc))
+          (map (fun p => (p, [p])) params) = false.
+Proof.
+  destruct (existsb _ _) eqn:E; [|reflexivity].
+  apply existsb_exists in E. destruct E as [vc [Hin H]]. apply in_map_iff in Hin.
+  destruct Hin as [p [<- Hp]]. simpl in H. rewrite (smem_In p params Hp) in H. discriminate.
+Qed.
+
+Lemma existsb_map' {A B} (f : B -> bool) (g : A -> B) l : existsb f (map g l) = existsb (fun x => f (g x)) l.
+Proof. induction l as [|x l IH]; [reflexivity|]. simpl. now rewrite IH. Qed.
+
+Lemma parse_o2pairs_untouched q params params2 a1 l o1 :
+  o1_falsy a1 = false -> norm_o1 params a1 = Some o1 ->
+  existsb (fun vc : string * list string => existsb (fun p => negb (smem p params)) (snd vc)) o1 = false ->
+  o1 <> [] -> o2_falsy (O2Pairs l) = false ->
+  existsb (fun p => negb (pair_touches (map fst o1) p)) l = true ->
+  parse_partials_ok q params params2 a1 (O2Pairs l) = Reject ValueError.
+Proof.
+  intros H1 H2 H3 H4 H5 H6. unfold parse_partials_ok. rewrite H1, H2, H3, H5.
+  destruct o1 as [|vc o1]; [congruence|].
+  unfold guard at 1 2. unfold andv at 1 2 3.
+  rewrite existsb_map'. cbn [fst]. rewrite H6. reflexivity.
+Qed.
+
+(* order1=True and a pair of two unknown names at any position of order2=[pairs] *)
+Theorem reject_unknown_pair q p0 params params2 pre a b post :
+  smem a (p0 :: params) = false -> smem b (p0 :: params) = false ->
+  parse_partials_ok q (p0 :: params) params2 O1True (O2Pairs (pre ++ (a, b) :: post)) = Reject ValueError.
+Proof.
+  intros Ha Hb.
+  apply (parse_o2pairs_untouched q (p0 :: params) params2 O1True _ (map (fun p => (p, [p])) (p0 :: params))).
+  - reflexivity.
+  - reflexivity.
+  - apply known_params_ok.
+  - discriminate.
+  - destruct pre; reflexivity.
+  - apply existsb_mid. rewrite map_map. cbn [fst]. rewrite map_id.
+    unfold pair_touches. cbn [fst snd]. rewrite Ha, Hb. reflexivity.
+Qed.
+
+Theorem accept_known_parameters q p0 params params2 :
+  parse_partials_ok q (p0 :: params) params2 O1True O2False = Accept.
+Proof. unfold parse_partials_ok. cbn [o1_falsy norm_o1]. rewrite known_params_ok. reflexivity. Qed.
+
+(* ------------------------------------------------------------------ 13. sequences *)
+Lemma flatten_none_at fuel : forall pre x post,
+  (forall f, match x with IOp _ | IProbe => Some [x] | IMulti ops | IList ops => flatten f ops | INonOp => None end = None) ->
+  flatten fuel (pre ++ x :: post) = None.
+Proof.
+  induction fuel as [|f IH]; intros pre x post Hx; [reflexivity|].
+  destruct pre as [|p pre]; simpl.
+  - rewrite (Hx f). reflexivity.
+  - rewrite (IH pre x post Hx). destruct p; try reflexivity; destruct (flatten f _); reflexivity.
+Qed.
+
+(* a non-operator item at any position and any nesting depth (python lists, MultiOperators) *)
+Inductive has_nonop : list item -> Prop :=
+| nonop_here pre post : has_nonop (pre ++ INonOp :: post)
+| nonop_list pre sub post : has_nonop sub -> has_nonop (pre ++ IList sub :: post)
+| nonop_multi pre sub post : has_nonop sub -> has_nonop (pre ++ IMulti sub :: post).
+
+Lemma flatten_nonop l : has_nonop l -> forall fuel, flatten fuel l = None.
+Proof.
+  induction 1; intros fuel; apply flatten_none_at; intros f; auto.
+Qed.
+
+Theorem reject_non_operator_item l fuel : has_nonop l -> simulate_ok fuel l = Reject ValueError.
+Proof. intros H. unfold simulate_ok, flatten_shape_ok. rewrite (flatten_nonop l H). reflexivity. Qed.
+Theorem reject_non_operator_item_modify l fuel c : has_nonop l -> modify_ok fuel l c = Reject ValueError.
+Proof. intros H. unfold modify_ok, flatten_shape_ok. rewrite (flatten_nonop l H). reflexivity. Qed.
+
+(* no probe among the flattened operators, whatever the length and nesting *)
+Theorem reject_no_probe fuel l leaves :
+  flatten fuel l = Some leaves -> existsb is_probe leaves = false -> simulate_ok fuel l = Reject ValueError.
+Proof.
+  intros H Hp. unfold simulate_ok, flatten_shape_ok, has_probe. rewrite H, Hp.
+  destruct leaves; [reflexivity|]. cbn [guard andv]. destruct (bshapes_ok _); reflexivity.
+Qed.
+Theorem accept_with_probe fuel l leaves :
+  flatten fuel l = Some leaves -> leaves <> [] -> bshapes_ok (map leaf_shape leaves) = true ->
+  existsb is_probe leaves = true -> simulate_ok fuel l = Accept.
+Proof.
+  intros H Hn Hb Hp. unfold simulate_ok, flatten_shape_ok, has_probe. rewrite H, Hb, Hp.
+  destruct leaves; [congruence | reflexivity].
+Qed.
+
+Theorem reject_non_virtual_operator pre post : seq_check_ok (pre ++ false :: post) = Reject ValueError.
+Proof.
+  unfold seq_check_ok. rewrite (forallb_false _ _ false); [reflexivity | apply in_elt | reflexivity].
+Qed.
+Theorem reject_missing_variable pre v post given :
+  smem v given = false -> seq_values_ok (pre ++ v :: post) given = Reject ValueError.
+Proof. intros H. unfold seq_values_ok. rewrite existsb_mid; [reflexivity | now rewrite H]. Qed.
+Theorem accept_all_variables_given vars : seq_values_ok vars vars = Accept.
+Proof.
+  unfold seq_values_ok. destruct (existsb _ vars) eqn:E; [|reflexivity].
+  apply existsb_exists in E. destruct E as [v [Hin H]]. rewrite (smem_In v vars Hin) in H. discriminate.
+Qed.
+Theorem reject_unknown_order1_variable vars pre v post o2 given :
+  smem v vars = false -> not_magnitude v = true ->
+  seq_build_ok vars (pre ++ v :: post) o2 given = Reject ValueError.
+Proof.
+  intros H Hm. unfold seq_build_ok. rewrite filter_app. cbn [filter]. rewrite Hm.
+  rewrite existsb_mid; [reflexivity | now rewrite H].
+Qed.
+
+(* ------------------------------------------------------------------ 14. RF pulses *)
+Theorem reject_pulse_sample_above_1 pre v post dur :
+  1 < abs2 v -> pulse_ok true 1 (pre ++ v :: post) dur = Reject ValueError.
+Proof.
+  intros H. unfold pulse_ok. cbn [negb Nat.ltb Nat.leb guard andv].
+  rewrite existsb_mid; [reflexivity | now apply Qltb_true].
+Qed.
+Theorem accept_pulse_within_unit_disc values d :
+  (forall v, In v values -> abs2 v <= 1) -> 0 <= d -> pulse_ok true 1 values (PScalar d) = Accept.
+Proof.
+  intros H Hd. unfold pulse_ok. cbn [negb Nat.ltb Nat.leb guard andv].
+  assert (existsb (fun v => Qltb 1 (abs2 v)) values = false) as ->.
+  { destruct (existsb _ values) eqn:E; [|reflexivity].
+    apply existsb_exists in E. destruct E as [v [Hin Hv]]. rewrite (Qltb_false _ _ (H v Hin)) in Hv. discriminate. }
+  cbn [guard andv]. rewrite (Qltb_false _ _ Hd). reflexivity.
+Qed.
+
+(* ------------------------------------------------------------------ allclose on complex entries *)
+Theorem close_within_atol A B : A <= atol * atol -> le_sqrt_aff A B = true.
+Proof. intros H. unfold le_sqrt_aff. apply Qle_bool_iff in H. rewrite H. reflexivity. Qed.
+(* beyond atol and beyond the relative term: rejected (squares: (|a-b| - atol)^2 > rtol^2 |b|^2) *)
+Theorem far_not_close A B :
+  atol * atol < A -> 0 < A + atol * atol - rtol * rtol * B ->
+  4 * (atol * atol) * A < (A + atol * atol - rtol * rtol * B) * (A + atol * atol - rtol * rtol * B) ->
+  le_sqrt_aff A B = false.
+Proof.
+  intros H1 H2 H3. unfold le_sqrt_aff.
+  assert (Qle_bool A (atol * atol) = false) as ->.
+  { destruct (Qle_bool _ _) eqn:E; [|reflexivity]. apply Qle_bool_iff in E. exfalso. apply (Qlt_not_le _ _ H1 E). }
+  assert (Qle_bool (A + atol * atol - rtol * rtol * B) 0 = false) as ->.
+  { destruct (Qle_bool _ _) eqn:E; [|reflexivity]. apply Qle_bool_iff in E. exfalso. apply (Qlt_not_le _ _ H2 E). }
+  destruct (Qle_bool _ _) eqn:E; [|reflexivity]. apply Qle_bool_iff in E. exfalso. apply (Qlt_not_le _ _ H3 E).
+Qed.
+(* exact symmetry is always accepted *)
+Theorem cclose_refl (a : QI) : cclose a a = true.
+Proof.
+  unfold cclose. apply close_within_atol. unfold abs2, qi_sub, qre, qim. simpl.
+  destruct a as [x y]. simpl.
+  assert (Ex : this (x - x)%Qc == 0) by (rewrite Qcminus_diag || (unfold Qcminus; rewrite Qcplus_opp_r); reflexivity).
+  assert (Ey : this (y - y)%Qc == 0) by (unfold Qcminus; rewrite Qcplus_opp_r; reflexivity).
+  rewrite Ex, Ey. discriminate.
+Qed.
